@@ -127,6 +127,10 @@ def run(sc):
       if (int(ov[w]) & (core.OV_ITER | core.OV_LS)) or (mjd.solver_niter[0] >= mjm.opt.iterations if mjd.nefc else False):
         stats["skipped"]["solver_budget_hit"] = stats["skipped"].get("solver_budget_hit", 0) + 1
         continue
+      if mjd.nefc and float(np.max(mjd.efc_D)) >= 1e12:
+        # a row whose Jacobian vanishes (D = 1/diagApprox = 1e15): its force is round-off times 1e15 in either engine
+        stats["skipped"]["degenerate_constraint_row"] = stats["skipped"].get("degenerate_constraint_row", 0) + 1
+        continue
       if constrained and (int(niter_w[w]) > 40 or (mjd.nefc and int(mjd.solver_niter[0]) > 40)):
         # a constrained step on which either Newton/CG solver needs more than 40 iterations is ill-conditioned: the two solvers stop at
         # different points of a flat cost valley and the difference is set by their termination tests, not by the integrator
